@@ -80,9 +80,10 @@ CLAIMS = {
         "parent; a series-parallel node's reduction list is a valid reduction sequence whose remainder is the child (or empty: the matrix "
         "is series-parallel); 1-sum blocks partition rows and columns; 2-, delta-, Y- and 3-sum children satisfy the documented composition "
         "formula of C12 (composeX ... = ok P with P a line permutation of the parent given by the child maps). Partial TU certification "
-        "(C03TU.lean): a node is TU whenever its children are, for series-parallel, 1-sum, ternary 2-sum, ternary pivot, ternary delta-sum and "
-        "Y-sum nodes (via C12Delta), hence every tree built from those kinds over TU leaves certifies a TU root (Truemper 3-sum nodes and the "
-        "leaves themselves are hypotheses). Tie: every tree returned by CMRtuTest / CMRregularTest "
+        "(C03TU.lean): a node is TU whenever its children are, for every inner node kind of ternary trees (series-parallel, pivot, 1-, 2-, "
+        "delta-, Y- and 3-sum; via C12, C12Delta, C12Three and the pivot theorem of C10), hence every ternary tree accepted by the checker "
+        "whose leaves are TU certifies that every node, in particular the root, is TU (tree_TU_partial4; remaining hypotheses: TU of the "
+        "leaves, ternary entries, and the pre-order id invariant, which the judge checks on every dumped tree; binary trees excluded). Tie: every tree returned by CMRtuTest / CMRregularTest "
         "(all strategies and option masks, small exhaustive and seeded matrices, sums of R10/R12/network blocks) and by "
         "complete/refine histories is dumped in full (types, flags, matrices, child maps, special lines, pivots, reductions read through "
         "seymour_internal.h) and run through the checker.",
